@@ -44,6 +44,154 @@ def run(ctx, rep):
     verdict_rule(f, P, rep)
     bound_rule(f, P, rep)
     coverage_rule(f, P, rep)
+    format_rounding_rule(f, rep, 'C20.7')
+    walk_rule(f, rep, 'C20.8')
+
+
+def format_rounding_rule(f, rep, rid):
+    """The formatter reserves (and gives a refcount to) as many clusters for the refcount table and for the L1
+    table as their byte sizes need: count << cluster_bits >= size, proved with the floor lemmas of the linear
+    layer for cluster_bits in 9..21.  A count that rounds down leaves the last cluster of the table with
+    refcount 0: the image is invalid and the allocator hands that cluster out again."""
+    from ..align import AlignInt
+    from ..absint import short_vn
+    from ..linear import LinProver
+    rep.rule(rid, 'calculate_meta_params: the cluster count of the refcount table and of the L1 table covers the byte size of the '
+                  'table (count << cluster_bits >= size) for every cluster size')
+    path = 'meta::header::Qcow2Header::calculate_meta_params'
+    if f.body(path) is None:
+        raise AnalysisError('calculate_meta_params not found')
+    ai = AlignInt(f)
+    sizes = {}
+
+    def grab(name):
+        def h(ai_, st, frame, b, bi, t, res):
+            if frame[0] is None:
+                sizes[name] = res
+        return h
+    ai.after_call['::__max_refcount_table_size'] = grab('refcount table')
+    ai.after_call['::__max_l1_size'] = grab('L1 table')
+
+    def setup(ai_, st, frame, b):
+        st.itv[st.env[(('L', frame, 2), ())]] = (9, 21)
+    frame, exits, _states = ai.analyze(path, setup)
+    b = f.body(path)
+    if len(sizes) != 2:
+        raise AnalysisError('calculate_meta_params: table size helpers not found (%s)' % sorted(sizes))
+
+    def peel(v):
+        k = 0
+        while isinstance(v, tuple) and v and v[0] in ('wrap', 'cast') and k < 8:
+            v = v[1]
+            k += 1
+        return v
+    n = 0
+    for bi, st in sorted(exits.items()):
+        rv = st.env.get((('L', frame, 0), ()))
+        if rv is None or rv[0] != 'agg' or len(rv[3]) != 3:
+            raise AnalysisError('calculate_meta_params: unexpected shape of the result')
+        cb = st.env[(('L', frame, 2), ())]
+        for name, idx in (('refcount table', 0), ('L1 table', 2)):
+            pair = rv[3][idx]
+            if pair[0] != 'agg' or len(pair[3]) != 2:
+                raise AnalysisError('calculate_meta_params: unexpected shape of the %s pair' % name)
+            cl = peel(pair[3][1])
+            lp = LinProver(ai, st, cb)
+            goal = lp.M(lp.lin(cl)).add(lp.lin(sizes[name]), -1)
+            try:
+                ok = lp.prove_ge0(goal)
+            except RecursionError:
+                ok = False
+            n += 1
+            rep.ob(rid, '%s: clusters << cluster_bits >= byte size' % name, ok, 'clusters = %s' % short_vn(cl)[:160])
+            if not ok:
+                rep.violation(rid, '%s:%s' % (rid, name.replace(' ', '_')), b.where(bi),
+                              'calculate_meta_params: the cluster count of the %s (%s) is not proved to cover its byte size: a table '
+                              'that is not a whole number of clusters loses its last cluster - it gets no refcount, the formatted '
+                              'image is invalid and the allocator hands the cluster out again' % (name, short_vn(cl)[:160]))
+    rep.floor('table cluster counts of the formatter', n, 2)
+
+
+def walk_rule(f, rep, rid):
+    """The walks of check() over the guest address space visit every guest cluster, the partial last one
+    included: the cursor handed to get_mapping starts at 0, advances by one cluster, and its bound covers the
+    virtual size (bound >= virtual_size for a cursor in bytes; bound << cluster_bits >= virtual_size for a
+    cluster index).  A walk that stops at virtual_size rounded down never looks at the last cluster of an image
+    whose size is not a cluster multiple: its data cluster is reported as leaked."""
+    from ..align import AlignInt, CL
+    from ..absint import short_vn
+    from ..linear import LinProver
+    rep.rule(rid, 'every walk of check() over the guest clusters starts at 0, steps by one cluster and is bounded by a value that covers the virtual size')
+    n = 0
+    for b in f.body_list:
+        if not b.is_coroutine or 'dev::check::' not in b.path or '::tests::' in b.path:
+            continue
+        if not any((t.get('fn') or '').endswith('>::get_mapping') for _bi, t in b.calls()):
+            continue
+        ai = AlignInt(f)
+        vs = []
+        ai.after_call['Qcow2Info::virtual_size'] = lambda ai_, st, frame, b_, bi, t, res: vs.append(res)
+        ai.analyze(b.path)
+        recs = {}
+        for rec in ai.async_calls:
+            if rec[3] == 'get_mapping' and rec[0] == b.path:
+                recs[rec[1]] = rec
+        for bi, rec in sorted(recs.items()):
+            st, v = rec[5], rec[4][-1]
+            n += 1
+            site = '%s: walk feeding get_mapping at %s' % (short(b.path), b.where(bi))
+            if not vs:
+                raise AnalysisError('%s: the virtual size is not read in this routine' % site)
+
+            def peel(x):
+                k = 0
+                while isinstance(x, tuple) and x and x[0] in ('wrap', 'cast') and k < 8:
+                    x = x[1]
+                    k += 1
+                return x
+            v = peel(ai.strip(st, v))
+            w = ai.walks.get(v)
+            ok, why = False, ''
+            if w is not None and w[0] == 'stepby':
+                _k, lo, hi, step, _p, _bi = w
+                sh = ai.pow2_shift(st, step)
+                c1 = lo == ('c', 0)
+                c2 = sh is not None and peel(ai.strip(st, sh)) == CL
+                c3 = any(ai.prove_le(st, x, hi) for x in vs)
+                ok = c1 and c2 and c3
+                why = 'byte cursor: starts at %s, step %s, bound %s' % (short_vn(lo), short_vn(step)[:40], short_vn(hi)[:60])
+                if not c3:
+                    why += ' (bound not proved >= virtual size)'
+            else:
+                idx = None
+                if v[0] == 'bin' and v[1] == 'Shl' and peel(ai.strip(st, v[3])) == CL:
+                    idx = peel(v[2])
+                elif v[0] == 'bin' and v[1] == 'Mul':
+                    for x, y in ((v[2], v[3]), (v[3], v[2])):
+                        sh = ai.pow2_shift(st, peel(y))
+                        if sh is not None and peel(ai.strip(st, sh)) == CL:
+                            idx = peel(x)
+                w = ai.walks.get(idx) if idx is not None else None
+                if w is None or w[0] != 'range':
+                    raise AnalysisError('%s: the cursor %s is not a recognised walk (byte cursor with step_by, or cluster index of a range)' % (site, short_vn(v)[:120]))
+                _k, lo, hi, _step, _p, _bi = w
+                c1 = lo == ('c', 0)
+                c3 = False
+                for x in vs:
+                    lp = LinProver(ai, st, CL)
+                    try:
+                        c3 = c3 or lp.prove_ge0(lp.M(lp.lin(hi)).add(lp.lin(x), -1))
+                    except RecursionError:
+                        pass
+                ok = c1 and c3
+                why = 'cluster index: starts at %s, bound %s%s' % (short_vn(lo), short_vn(hi)[:80], '' if c3 else ' (bound << cluster_bits not proved >= virtual size)')
+            rep.ob(rid, site, ok, why)
+            if not ok:
+                rep.violation(rid, '%s:%s' % (rid, short(b.path)), b.where(bi),
+                              '%s does not provably visit every guest cluster (%s): the last, partial cluster of an image whose '
+                              'virtual size is not a cluster multiple is skipped, check() reports its data cluster as leaked (or '
+                              'misses a bad mapping there)' % (short(b.path), why))
+    rep.floor('guest walks of check()', n, 2)
 
 
 def cli_rule(fb, rep):
